@@ -194,6 +194,21 @@ class C18(Prop):
             except Exception as ex:
                 raise Decline("trace-raised:" + type(ex).__name__)
             variants = [("traced", prog)]
+            # the same function with an op that fails and is caught before the computation (a fallback pattern): what the
+            # function computes is unchanged, so it must trace as before and to a program with the same values
+            first_ = d0[used[0]]
+
+            def guarded(**env):
+                try:
+                    ops.matmul(env[used[0]], np.ones((first_.shape[0] + 1, 2)))
+                except Exception:  # noqa: BLE001
+                    pass
+                return ev(e, env)
+
+            try:
+                variants.append(("traced-after-a-caught-op-error", trace_function(guarded, dict(d0))))
+            except Exception as ex:
+                raise Violation("traced:tracing-fails-after-a-caught-op-error", f"{type(ex).__name__}: {ex}: the function traces without the caught failing op: {self.describe(case)}")
             try:
                 variants.append(("unpickled", pickle.loads(pickle.dumps(prog))))
             except Exception as ex:
